@@ -10,7 +10,7 @@ ALL_SEQ_OPS = {"ctopic", "gtopic", "dtopic", "ltopics", "ltsubs", "csub", "gsub"
 
 # property -> configuration.  seq: (profile, quick cases, thorough cases, max history length)
 PROPS = {
-    "C01": dict(module="Deltio.Props.C01", p1=True, no_oracle={"namerace"}, conc=[("mix", 120, 5000), ("cancel", 60, 2000), ("namerace", 200, 5000)], trace_kinds={"post", "publish", "pull", "ack", "modify", "expire", "end"}, seq=[("general", 150, 6000, 40), ("data", 150, 6000, 50)], pure=[],
+    "C01": dict(module="Deltio.Props.C01", p1=True, no_oracle={"namerace"}, conc=[("mix", 120, 5000), ("cancel", 60, 2000), ("namerace", 200, 5000)], trace_kinds={"post", "publish", "publish.fanout", "pull", "ack", "modify", "expire", "end"}, seq=[("general", 150, 6000, 40), ("data", 150, 6000, 50)], pure=[],
                 relevant={"pub", "pull", "sread", "stats", "sopen"}),
     "C02": dict(module="Deltio.Props.C02", conc=[("mix", 120, 5000)], trace_kinds={"ack"}, seq=[("data", 250, 10000, 50)], pure=["tracker", "ackids"],
                 relevant={"ack", "ssend", "pull", "sread", "stats"}),
@@ -20,9 +20,9 @@ PROPS = {
                 relevant={"pull", "sread", "stats", "adv", "clock", "csub"}),
     "C05": dict(module="Deltio.Props.C05", conc=[("mix", 60, 3000)], trace_kinds={"modify"}, seq=[("deadlines", 300, 12000, 50)], pure=["ext", "tracker"],
                 relevant={"mod", "ssend", "pull", "sread", "stats"}),
-    "C08": dict(module="Deltio.Props.C08", conc=[("mix", 120, 5000)], trace_kinds={"publish", "post", "pull"}, seq=[("data", 200, 8000, 50), ("general", 100, 4000, 40)], pure=[],
+    "C08": dict(module="Deltio.Props.C08", conc=[("mix", 120, 5000)], trace_kinds={"publish", "publish.ids", "post", "post.order", "pull"}, seq=[("data", 200, 8000, 50), ("general", 100, 4000, 40)], pure=[],
                 relevant={"pub", "pull", "sread"}),
-    "C09": dict(module="Deltio.Props.C09", push=True, conc=[("mix", 60, 3000)], trace_kinds={"publish", "pull"}, seq=[("general", 200, 8000, 40), ("data", 100, 4000, 50)], pure=[],
+    "C09": dict(module="Deltio.Props.C09", push=True, conc=[("mix", 60, 3000)], trace_kinds={"publish", "publish.ids", "pull"}, seq=[("general", 200, 8000, 40), ("data", 100, 4000, 50)], pure=[],
                 relevant={"pub", "pull", "sread"}),
     "C10": dict(module="Deltio.Props.C10", p1=True, conc=[("namerace", 600, 20000)], trace_kinds={"attach", "remove", "delete", "delete.begin", "delete.end"}, seq=[("namespace", 300, 12000, 50)], pure=[],
                 relevant={"ctopic", "gtopic", "dtopic", "csub", "gsub", "dsub", "pub", "pull", "ack", "mod", "lsubs", "ltopics", "ltsubs"}),
@@ -37,7 +37,7 @@ PROPS = {
     "C06": dict(module="Deltio.Props.C06", seq=[], pure=[], conc=[("race", 1500, 40000), ("wake", 400, 10000), ("swallow", 300, 8000), ("mix", 100, 4000)],
                 relevant={"pull", "probe", "sread", "stats"}, trace_kinds={"pull", "post", "modify", "expire"}),
     "C07": dict(module="Deltio.Props.C07", seq=[], pure=[], conc=[("burst", 150, 4000), ("delete", 150, 4000), ("cancel", 150, 4000), ("namerace", 200, 5000)],
-                relevant=ALL_SEQ_OPS, trace_kinds={"delete.begin", "delete.end", "remove", "publish"}),
+                relevant=ALL_SEQ_OPS, trace_kinds={"delete.begin", "delete.end", "remove"}),
     "C12": dict(module="Deltio.Props.C12", seq=[], pure=[], conc=[("delete", 600, 20000)],
                 relevant={"pull", "sread", "dsub", "ack", "mod", "gsub", "pub"}, trace_kinds={"delete.begin", "delete.end"}),
     "C14": dict(module="Deltio.Props.C14", seq=[("namespace", 80, 3000, 40)], pure=[], conc=[], push=True,
@@ -107,9 +107,17 @@ def run_seq_cases(cases, seed=1, workers=1):
     return res
 
 
-def mismatch_kind(trace, idx):
+def mismatch_kind(trace, idx, verdict=""):
     """Kind of the deviating turn: for a `state` digest mismatch, the turn of the same actor that
-    produced that state (the closest earlier non-state event of the same actor)."""
+    produced that state (the closest earlier non-state event of the same actor). Publish / post
+    mismatches are split by what deviates (ids, fan-out set, order), so that each goes to the
+    property that is about it."""
+    if "posts-out-of-order" in verdict:
+        return "post.order"
+    if "publish fan-out set" in verdict:
+        return "publish.fanout"
+    if "publish ids" in verdict:
+        return "publish.ids"
     toks = trace[idx].split() if idx < len(trace) else []
     if len(toks) <= 3:
         return "end"
@@ -124,6 +132,8 @@ def mismatch_kind(trace, idx):
 
 def project(prop, op, ans):
     """Which part of a control-plane answer a property depends on (the rest belongs to other properties)."""
+    if op == "pub" and prop in ("C10", "C11", "C13", "C14", "C17", "C18"):
+        return ans.split(" ")[0]          # only the status: message ids belong to C08 / C09
     if op not in ("csub", "gsub", "lsubs", "wsubs"):
         return ans
     fields = {"C11": (0, 1), "C14": (0, 3), "C18": (0, 1), "C13": (0,), "C04": (2,), "C17": ()}.get(prop)
@@ -142,6 +152,12 @@ def project(prop, op, ans):
             proj.append(parts[2])
         out.append(" ".join(proj))
     return " | ".join(out)
+
+
+def pure_accepts(ans):
+    """Accept / reject decision of a parser answer in the pure streams."""
+    first = ans.split(" ")[0]
+    return not (first == "none" or first in oracles.GRPC_ERRORS)
 
 
 def first_diff(impl, model):
@@ -176,11 +192,17 @@ def shrink_seq(prop, case, pred, budget=150):
 
 
 def own_signature(prop, sig):
-    """Oracle signatures are prefixed with the property they belong to (`c13:…`); generic ones
-    (panic, hang, abort, transport) belong to every property."""
+    """Oracle signatures are prefixed with the property they belong to (`c13:…`). Of the generic
+    ones, panics / aborts / transport failures belong to every property (nothing can be observed
+    any more); a request that never returns (`hang:`) belongs to the properties that are about
+    termination and release: C06, C07, C12, C16."""
     import re
     m = re.match(r"^c(\d\d):", sig)
-    return m is None or ("C" + m.group(1)) == prop
+    if m is not None:
+        return ("C" + m.group(1)) == prop
+    if sig.startswith("hang:"):
+        return prop in ("C06", "C07", "C12", "C16")
+    return True
 
 
 class Check:
@@ -220,6 +242,9 @@ class Check:
             for sig, msg in fails:
                 if own_signature(self.prop, sig):
                     self.oracle_fail.append((sig, msg, dict(mode="pure", stream=name, ops=[l], impl=[a], model=[b])))
+            if a != b and self.prop == "C17" and pure_accepts(a) == pure_accepts(b):
+                self.unattributed += 1     # C17 is about WHICH inputs are rejected, not about the parsed value
+                continue
             if a != b:
                 if name == "tracker" and not self.tracker_relevant(l, a, b):
                     self.unattributed += 1
@@ -299,7 +324,7 @@ class Check:
                 if case_no in diverged:
                     continue          # only the first deviating turn of a case is a root cause
                 diverged.add(case_no)
-                kind = mismatch_kind(trace, idx)
+                kind = mismatch_kind(trace, idx, v)
                 if kind in kinds or (kind == "end" and "post" in kinds):
                     nd += 1
                     self.disagree.append(dict(mode="trace", stream="conc/" + profile, ops=[tl], impl=[tl], model=[v], first_diff=0))
@@ -388,7 +413,7 @@ class Check:
             verdicts, _, _ = run_model("trace", "\n".join(trace) + "\n")
             for idx, v in enumerate(verdicts):
                 if v != "ok":
-                    return mismatch_kind(trace, idx)
+                    return mismatch_kind(trace, idx, v)
         except Exception:
             return None
         return None
